@@ -229,7 +229,12 @@ FormFullA(int n, int_t *nonz, float **nzval, int_t **rowind, int_t **colptr)
 	    ++marker[col];
 	}
 
-    new_nnz = *nonz * 2 - n;
+    /* Every off-diagonal entry is mirrored; the diagonal entries that are
+       present (not necessarily all n of them) are not. */
+    new_nnz = *nonz * 2;
+    for (j = 0; j < n; ++j)
+	for (i = al_colptr[j]; i < al_colptr[j+1]; ++i)
+	    if ( al_rowind[i] == j ) --new_nnz;
     if ( !(a_colptr = intMalloc(n+1) ) )
 	ABORT("SUPERLU_MALLOC a_colptr[]");
     if ( !(a_rowind = intMalloc( new_nnz ) ) )
